@@ -509,7 +509,8 @@ namespace
     value pwd___(runtime& runtime)
     {
         auto path = std::filesystem::path(runtime.context_active().current_frame().diag_info_from_position().path.physical);
-        auto str = std::filesystem::absolute(path).string();
+        std::error_code ec;
+        auto str = std::filesystem::absolute(path, ec).string();
         std::replace(str.begin(), str.end(), '\\', '/');
         return str;
     }
@@ -517,7 +518,8 @@ namespace
     {
         auto pathinfo = runtime.context_active().current_frame().diag_info_from_position().path;
         auto path = std::filesystem::path(pathinfo.physical);
-        auto str = std::filesystem::absolute(path.parent_path()).string();
+        std::error_code ec; // code that has no file (empty path) has no directory either: empty string instead of an exception
+        auto str = std::filesystem::absolute(path.parent_path(), ec).string();
         std::replace(str.begin(), str.end(), '\\', '/');
         return str;
     }
